@@ -819,6 +819,11 @@ def main():
         files["Parser.lean"] = text
         done += d3
         fallback = ["%s" % x for x in f3]
+        # proxysocket.cpp: the upstream-side slots and the buffering slot, over the model's Proxy.St
+        text, d4, f4 = cxx2lean_qt.translate_proxy(repo, exp)
+        files["Proxy.lean"] = text
+        done += d4
+        failed += f4
     except Exception as e:
         failed.append("socket.cpp member functions (%s)" % str(e)[:300])
 
